@@ -395,10 +395,68 @@ def rule_e(ctx, out):
                     f"{got if got is not None else 'no hexadecimal value'}", where(f), {"text": text, "parsed": repr(items)[:200]})
 
 
+def rule_f(ctx, out):
+    """A contract's assembly survives parse -> serialise whatever optional parts it has.  build_asm_contract and AsmContract.to_asm_json
+    (with the block builder, the item parser and the classes' own constructors, setters and methods) are interpreted on a family of
+    assembly dictionaries: sub-assemblies with and without .auxdata, with and without a nested .data, string-valued data entries, with
+    and without sourceList, one or two sub-assemblies; the result must be the input again (and parsing must not raise)."""
+    import itertools
+    from ..core.interp import ModuleInterp
+    from ..core.minieval import Unsupported, Raised
+    bc = ctx.func(f"{P}.build_asm_contract")
+    classes = {n: ctx.p.cls(q) for n, q in (("AsmContract", "sfs_generator.asm_contract.AsmContract"), ("AsmBlock", "sfs_generator.asm_block.AsmBlock"),
+                                             ("AsmBytecode", BC))}
+    mi = ModuleInterp(ctx, max_steps=400000, extern={"sfs_generator.utils.compute_stack_size": lambda *a, **k: 0, "compute_stack_size": lambda *a, **k: 0})
+    fakes = {}
+    for n, ci in classes.items():
+        fakes[n] = mi.fake_class(ci)
+        mi.extern[n] = mi.constructor(ci, (lambda F: (lambda: F()))(fakes[n]))
+    mi.module_env("global_params.constants")["push0_enabled"] = False
+    code_a = [_rec("tag", "1"), _rec("JUMPDEST"), _rec("PUSH", "80"), _rec("PUSH", "40"), _rec("MSTORE"), _rec("PUSH [tag]", "2"), _rec("JUMP", None, jumpType="[in]"),
+              _rec("tag", "2"), _rec("JUMPDEST"), _rec("STOP")]
+    code_b = [_rec("PUSH", "0"), _rec("DUP1"), _rec("REVERT")]
+    n = 0
+    for aux, nested, address, srcs, two in itertools.product((False, True), (False, True), (False, True), (False, True), (False, True)):
+        sub = {".code": [dict(r) for r in code_a]}
+        if aux:
+            sub[".auxdata"] = "a264"
+        if nested:
+            sub[".data"] = {"A1B2": "6080"}
+        data = {"0": sub}
+        if two:
+            data["1"] = {".auxdata": "ff", ".code": [dict(r) for r in code_b]}
+        if address:
+            data["ACAB"] = "00112233"
+        doc = {".code": [dict(r) for r in code_b], ".data": data}
+        if srcs:
+            doc["sourceList"] = ["a.sol", "#utility.yul"]
+        label = ", ".join(k for k, v in (("no .auxdata", not aux), ("nested .data", nested), ("address entry", address), ("sourceList", srcs), ("two sub-assemblies", two)) if v) or "plain"
+        import copy
+        try:
+            contract = mi.call(bc, "dir/file.sol:Name", copy.deepcopy(doc))
+            back = mi.call(classes["AsmContract"].methods["to_asm_json"], contract)
+        except Raised as e:
+            n += 1
+            out.bad(f"contract-parse-raises:{e.what.split(' ')[0]}", f"parsing / serialising a well-formed assembly ({label}) raises {e.what}", where(bc), {"document": label})
+            continue
+        except Unsupported as e:
+            raise AnalysisError(f"build_asm_contract / to_asm_json cannot be evaluated abstractly ({label}): {e}")
+        n += 1
+        if back == doc:
+            out.ok({"document": label, "round_trip": "identical"})
+        else:
+            diff = [k for k in sorted(set(doc) | set(back if isinstance(back, dict) else {})) if not isinstance(back, dict) or doc.get(k) != back.get(k)]
+            out.bad(f"contract-round-trip:{(diff or ['?'])[0]}", f"an assembly ({label}) is not serialised back to itself: differs in {diff}", where(bc),
+                    {"document": label, "serialised": repr(back)[:400]})
+    if n < 32:
+        raise AnalysisError(f"only {n} documents evaluated")
+
+
 RULES = [
     ("C15.e", "plain-text constants keep their value in every spelling", 20, rule_e),
     ("C15.d", "per-section containers of the serialiser are fresh", 2, rule_d),
     ("C15.a", "key agreement between parser and serialiser at every level", 25, rule_a),
+    ("C15.f", "contract assembly round-trips whatever optional parts it has (by evaluation)", 32, rule_f),
     ("C15.b", "item name/value change only through the PUSH0 spelling", 5, rule_b),
     ("C15.c", "PUSHLIB renumbering round-trips through real_value", 3, rule_c),
 ]
